@@ -1,8 +1,247 @@
+//! C17 — programmed frequency, TX power and RX timeout decode to what was requested.
+//!
+//! Generators (see `rule()`): freq-*, power, symb-timeout, adapter, pktstatus-*, rssi-inst.
+//! Sub-monitors live in c17_power.rs, c17_rx.rs, c17_status.rs; the frequency part is here.
+
+use crate::bus::*;
+use crate::exec::block_on;
+use crate::viol;
+use lora_phy::mod_traits::RadioKind;
 use lrv_core::*;
+
+#[path = "c17_power.rs"]
+pub mod power;
+#[path = "c17_rx.rs"]
+pub mod rx;
+#[path = "c17_status.rs"]
+pub mod status;
+
 pub struct C17;
+
+// ---- frequency workload -------------------------------------------------------------------------
+
+#[derive(Clone, Copy)]
+struct Seg {
+    start: u64,
+    end: u64, // inclusive
+    step: u64,
+}
+impl Seg {
+    fn count(&self) -> u64 {
+        (self.end - self.start) / self.step + 1
+    }
+}
+
+const F_MIN: u64 = 137_000_000;
+const F_MAX: u64 = 1_020_000_000;
+
+fn segs(tier: Tier) -> Vec<Seg> {
+    match tier {
+        Tier::Thorough => vec![Seg { start: F_MIN, end: F_MAX, step: 1 }],
+        Tier::Quick => vec![
+            // every 1 Hz of the LoRaWAN bands (EU433, CN470, EU868/IN865, US915/AU915/AS923/KR920)
+            Seg { start: 433_050_000, end: 434_790_000, step: 1 },
+            Seg { start: 470_000_000, end: 510_000_000, step: 1 },
+            Seg { start: 863_000_000, end: 870_000_000, step: 1 },
+            Seg { start: 902_000_000, end: 928_000_000, step: 1 },
+            // stride over the whole tuning range
+            Seg { start: F_MIN, end: F_MAX, step: 97 },
+            // the ends of the range, densely
+            Seg { start: F_MIN, end: F_MIN + 20_000, step: 1 },
+            Seg { start: F_MAX - 20_000, end: F_MAX, step: 1 },
+        ],
+        Tier::Sanitizer => vec![Seg { start: F_MIN, end: F_MAX, step: 3_000_017 }],
+    }
+}
+fn freq_total(tier: Tier) -> u64 {
+    segs(tier).iter().map(|s| s.count()).sum()
+}
+fn freq_block(tier: Tier) -> u64 {
+    tier.pick(1 << 18, 1 << 20, 64)
+}
+fn freq_nth(segs: &[Seg], mut k: u64) -> Option<u32> {
+    for s in segs {
+        if k < s.count() {
+            return Some((s.start + k * s.step) as u32);
+        }
+        k -= s.count();
+    }
+    None
+}
+fn band(f: u32) -> &'static str {
+    match f {
+        0..=399_999_999 => "<400M",
+        400_000_000..=524_999_999 => "400-525M",
+        525_000_000..=861_999_999 => "525-862M",
+        _ => ">=862M",
+    }
+}
+
+#[derive(Clone, Copy, PartialEq)]
+enum FChip {
+    Sx126x,
+    Sx127x,
+    Lr1110,
+}
+
+fn freq_sweep<RK: RadioKind>(chip: FChip, name: &str, rk: &mut RK, bus: &Bus, idx: u64, col: &mut Collector) {
+    let sg = segs(col.tier);
+    let b = freq_block(col.tier);
+    let mut n = 0u64;
+    let mut last_bucket = u32::MAX;
+    for k in idx * b..(idx + 1) * b {
+        let Some(f) = freq_nth(&sg, k) else { break };
+        n += 1;
+        {
+            let mut c = bus.chip();
+            c.rf_word = None;
+            c.reg_written = 0;
+        }
+        let r = trap(|| block_on(rk.set_channel(f)));
+        let bucket = f / 100_000_000;
+        if bucket != last_bucket {
+            last_bucket = bucket;
+            col.class(&format!("{}|freq|{}00MHz", name, bucket));
+        }
+        let bd = band(f);
+        match r {
+            Err(t) => {
+                viol(col, &format!("C17|freq|panic|{}/{}", name, bd), "set_channel panicked", || json!({"chip": name, "freq": f, "panic": t.msg, "loc": t.loc}));
+                continue;
+            }
+            Ok(Err(e)) => {
+                viol(col, &format!("C17|freq|refused|{}/{}", name, bd), "set_channel returned an error on a fault-free bus", || json!({"chip": name, "freq": f, "error": format!("{:?}", e)}));
+                continue;
+            }
+            Ok(Ok(())) => {}
+        }
+        let c = bus.chip();
+        match chip {
+            FChip::Sx126x => {
+                let Some((_, w)) = c.rf_word else {
+                    drop(c);
+                    viol(col, &format!("C17|freq|not-written|{}/{}", name, bd), "no SetRfFrequency command on the bus", || json!({"chip": name, "freq": f}));
+                    continue;
+                };
+                drop(c);
+                // f_dec = w * 32e6 / 2^25 = w * 15625 / 16384
+                let a = w as i128 * 15_625;
+                let bb = f as i128 * 16_384;
+                let d = (a - bb).abs();
+                if d >= 16_384 {
+                    viol(col, &format!("C17|freq|off>=1Hz|{}/{}", name, bd), "decoded PLL word is 1 Hz or more away from the request", || {
+                        json!({"chip": name, "freq": f, "word": w, "decoded_hz": w as f64 * 15625.0 / 16384.0, "nearest_word": ((bb + 7812) / 15_625) as u64})
+                    });
+                } else if 2 * d > 15_625 {
+                    viol(col, &format!("C17|freq|not-nearest|{}/{}", name, bd), "PLL word is not the nearest synthesiser step", || {
+                        json!({"chip": name, "freq": f, "word": w, "decoded_hz": w as f64 * 15625.0 / 16384.0, "nearest_word": ((bb + 7812) / 15_625) as u64})
+                    });
+                }
+            }
+            FChip::Sx127x => {
+                let ok = c.was_written(SX127X_REG_FRF_MSB) && c.was_written(SX127X_REG_FRF_MID) && c.was_written(SX127X_REG_FRF_LSB);
+                let frf = ((c.regs[SX127X_REG_FRF_MSB as usize] as u32) << 16) | ((c.regs[SX127X_REG_FRF_MID as usize] as u32) << 8) | c.regs[SX127X_REG_FRF_LSB as usize] as u32;
+                drop(c);
+                if !ok {
+                    viol(col, &format!("C17|freq|not-written|{}/{}", name, bd), "RegFrfMsb/Mid/Lsb were not all written", || json!({"chip": name, "freq": f}));
+                    continue;
+                }
+                // f_dec = frf * 32e6 / 2^19 = frf * 15625 / 256
+                let d = (f as i128 * 256 - frf as i128 * 15_625).abs();
+                if d >= 62 * 256 {
+                    viol(col, &format!("C17|freq|off>=62Hz|{}/{}", name, bd), "decoded Frf is 62 Hz or more away from the request", || {
+                        json!({"chip": name, "freq": f, "frf": frf, "decoded_hz": frf as f64 * 15625.0 / 256.0})
+                    });
+                }
+            }
+            FChip::Lr1110 => {
+                let w = c.rf_word;
+                drop(c);
+                match w {
+                    None => viol(col, &format!("C17|freq|not-written|{}/{}", name, bd), "no SetRfFrequency command on the bus", || json!({"chip": name, "freq": f})),
+                    Some((_, w)) if w != f => viol(col, &format!("C17|freq|mismatch|{}/{}", name, bd), "LR11xx SetRfFrequency takes Hz; the value differs from the request", || json!({"chip": name, "freq": f, "written": w})),
+                    _ => {}
+                }
+            }
+        }
+    }
+    col.eval_n(n);
+    col.event_n(&format!("freq_judged:{}", name), n);
+    if col.want_sample() {
+        col.sample(json!({"chip": name, "first_freq": freq_nth(&sg, idx * b), "count": n}));
+    }
+}
+
 impl Monitor for C17 {
-    fn prop(&self) -> &'static str { "C17" }
-    fn gens(&self, _t: Tier) -> Vec<Gen> { vec![] }
-    fn run_case(&self, _g: &str, _i: u64, _r: &mut Prng, _c: &mut Collector) {}
-    fn rule(&self) -> String { String::new() }
+    fn prop(&self) -> &'static str {
+        "C17"
+    }
+    fn gens(&self, tier: Tier) -> Vec<Gen> {
+        let fb = freq_total(tier).div_ceil(freq_block(tier));
+        vec![
+            gen("freq-sx126x", fb),
+            gen("freq-sx127x", fb),
+            gen("freq-lr1110", fb),
+            gen("power", power::CASES),
+            gen("symb-timeout", rx::SYMB_CHIPS * tier.pick(16, 16, 1)),
+            gen("adapter", rx::ADAPTER_TARGETS * tier.pick(80, 80, 4)),
+            gen("pktstatus-sx126x", tier.pick(256, 256, 2)),
+            gen("pktstatus-lr1110", tier.pick(256, 256, 2)),
+            gen("pktstatus-sx127x", 3 * tier.pick(256, 256, 2)),
+            gen("rssi-inst", 5),
+        ]
+    }
+    fn exhaustive(&self, _tier: Tier) -> bool {
+        false
+    }
+    fn rule(&self) -> String {
+        "freq-<chip>: case = block of consecutive entries of the frequency list (quick: every 1 Hz of the EU433/CN470/EU868/US915-AS923 bands + stride 97 Hz over 137-1020 MHz + both 20 kHz ends at 1 Hz; thorough: every 1 Hz of 137-1020 MHz), each through RadioKind::set_channel on a recording bus; \
+         power: case = (variant, PA path, band, with/without modulation params), every request -128..127 + i32 extremes, ascending/descending/shuffled, both ramp modes, through set_tx_power_and_ramp_time; \
+         symb-timeout: every symbol count 0..65535 through do_rx(Single(n)) on SX1261, SX1276, SX1272, LR1110; \
+         adapter: case = (target in {recording RadioKind, SX1262, SX1276}, SF, BW), every margin 0..1000 ms through LorawanRadio::setup_rx + rx_single; \
+         pktstatus-sx126x: all 2^24 raw GetPacketStatus triples; pktstatus-lr1110 / pktstatus-sx127x: all 2^16 (rssi, snr) pairs (SX1276 LF, SX1276 HF, SX1272); rssi-inst: all 256 raw values per chip. \
+         Class = (chip, quantity, range class)."
+            .into()
+    }
+    fn assumptions(&self) -> Vec<String> {
+        let mut v = vec![
+            "SX126x: f = word * 32 MHz / 2^25; SX127x: f = Frf * 32 MHz / 2^19 and only |request - decoded| < 62 Hz is required (truncation and rounding both pass); LR11xx SetRfFrequency takes Hz and must equal the request".into(),
+        ];
+        v.extend(power::assumptions());
+        v.extend(rx::assumptions());
+        v.extend(status::assumptions());
+        v
+    }
+    fn required_events(&self, tier: Tier) -> Vec<&'static str> {
+        let mut v = vec!["freq_judged:sx126x", "freq_judged:sx127x", "freq_judged:lr1110", "power_judged", "symb_judged", "adapter_judged:recorder", "pktstatus_ok:sx126x", "pktstatus_ok:sx127x", "rssi_inst_ok"];
+        if tier != Tier::Sanitizer {
+            v.extend(["power_clamped_low", "power_clamped_high", "power_in_range", "symb_above_chip_max", "adapter_judged:sx1262", "adapter_judged:sx1276", "pktstatus_snr_negative", "pktstatus_ok:lr1110"]);
+        }
+        v
+    }
+
+    fn run_case(&self, g: &str, idx: u64, rng: &mut Prng, col: &mut Collector) {
+        match g {
+            "freq-sx126x" => {
+                let (mut rk, bus) = new_sx1262();
+                freq_sweep(FChip::Sx126x, "sx126x", &mut rk, &bus, idx, col);
+            }
+            "freq-sx127x" => {
+                let (mut rk, bus) = new_sx1276(false);
+                freq_sweep(FChip::Sx127x, "sx127x", &mut rk, &bus, idx, col);
+            }
+            "freq-lr1110" => {
+                let (mut rk, bus) = new_lr1110(lora_phy::lr1110::PaSelection::Lp);
+                freq_sweep(FChip::Lr1110, "lr1110", &mut rk, &bus, idx, col);
+            }
+            "power" => power::run(idx, rng, col),
+            "symb-timeout" => rx::run_symb(idx, rng, col),
+            "adapter" => rx::run_adapter(idx, rng, col),
+            "pktstatus-sx126x" => status::run_sx126x(idx, rng, col),
+            "pktstatus-lr1110" => status::run_lr1110(idx, rng, col),
+            "pktstatus-sx127x" => status::run_sx127x(idx, rng, col),
+            "rssi-inst" => status::run_rssi_inst(idx, rng, col),
+            _ => unreachable!(),
+        }
+    }
 }
